@@ -44,6 +44,15 @@ type analysis struct {
 	kindCache map[int]string
 	popAt     map[[2]int]bool
 	harness   []string
+	obs       map[string]int64 // what the oracle looked at (goes into the evidence file)
+}
+
+// ob counts something the oracle actually examined in this run.
+func (a *analysis) ob(k string, n int) {
+	if a.obs == nil {
+		a.obs = map[string]int64{}
+	}
+	a.obs[k] += int64(n)
 }
 
 func analyse(rr *runRec) *analysis {
@@ -221,6 +230,8 @@ func (a *analysis) oracleC01() verdict {
 	if a.rr.tWaitRet.Load() == 0 {
 		return inconclusive("Wait did not return and no certificate was obtained")
 	}
+	a.ob("waits_returned", 1)
+	a.ob("detached_pushes", int(a.rr.hookOcc[hpHmPushDetached].Load()))
 	nt := a.rr.delaysN.Load() >= 2 || a.rr.hookOcc[hpHmPushDetached].Load() > 0 || a.sc.Q >= 0 && a.sc.Q < len(a.sc.Bars)
 	return held(nt)
 }
@@ -249,6 +260,10 @@ func (a *analysis) oracleC02() verdict {
 		}
 		if tDone != 0 && o.Inv < tDone && o.Ret > tDone {
 			overl = true
+			a.ob("calls_overlapping_done", 1)
+		}
+		if tw := a.rr.tWaitRet.Load(); tw != 0 && o.Inv > tw {
+			a.ob("calls_after_wait_returned", 1)
 		}
 		// results of calls that began after Wait returned are checked in lateCalls; here: Add/Write results are well-formed
 		if o.Op.K == "add" && o.Res != "ok" && o.Res != "ErrDone" {
@@ -276,6 +291,7 @@ func (a *analysis) oracleC16() verdict {
 	if a.rr.stuckKind != "" {
 		return inconclusive("scenario did not finish (%s): leak check not reached", a.rr.stuckKind)
 	}
+	a.ob("drain_checks_done", 1)
 	if a.rr.leak != "" {
 		key := "leak:" + leakKey(a.rr.leak)
 		v := violated(key, "library goroutine(s) still parked after Wait returned and the notifier was read, unchanged over 5 polls:\n%s", a.rr.leak)
@@ -335,6 +351,8 @@ func (a *analysis) oracleC14() verdict {
 			continue
 		}
 		pw := rr.postWait[i]
+		a.ob("bars_read_after_wait", 1)
+		a.ob("listener_counters_checked", len(rr.listenerCalls[i]))
 		if pw.Running {
 			return violated("running-after-wait", "bar %d IsRunning after Wait returned (cancel placed at %s)", i, place)
 		}
@@ -356,12 +374,14 @@ func (a *analysis) oracleC14() verdict {
 		}
 		var c, ab, run bool
 		if _, err := fmt.Sscanf(o.Res, "%t,%t,%t", &c, &ab, &run); err == nil {
+			a.ob("reads_right_after_barwait", 1)
 			if run || c == ab {
 				return violated("barwait-unsettled", "right after Bar.Wait returned on bar %d: IsRunning=%v Completed=%v Aborted=%v (cancel placed at %s)", o.Op.B, run, c, ab, place)
 			}
 		}
 	}
 	if sc.Notifier {
+		a.ob("notifier_lists_checked", 1)
 		if len(rr.notif) != 1 {
 			return violated(fmt.Sprintf("notifier:%d", len(rr.notif)), "shutdown notifier delivered %d values (cancel placed at %s)", len(rr.notif), place)
 		}
@@ -593,6 +613,7 @@ func (a *analysis) oracleC05() verdict {
 				return a.fv("duplicate", "frame %d shows bar %d twice (ids top to bottom %v)", fi, g.ID, f.ids())
 			}
 			seen[g.ID] = true
+			a.ob("row_groups_checked", 1)
 			if g.ID < 0 || g.ID >= len(sc.Bars) {
 				return a.fv("unknown-bar", "frame %d shows unknown bar id %d", fi, g.ID)
 			}
@@ -684,6 +705,7 @@ func (a *analysis) oracleC05() verdict {
 			return a.fv("notifier-set", "%s", m)
 		}
 	}
+	a.ob("membership_changes", changes)
 	return held(changes >= 2)
 }
 
@@ -841,6 +863,7 @@ func (a *analysis) oracleC03() verdict {
 			}
 		}
 	}
+	a.ob("last_frames_compared_with_getters", 1)
 	return held(nearEnd || sc.End != "natural")
 }
 
@@ -1149,6 +1172,7 @@ func (a *analysis) oracleC13() verdict {
 			}
 		}
 	}
+	a.ob("texts_located_in_output", len(ws))
 	return held(overlap || len(ws) > 3)
 }
 
